@@ -1,10 +1,11 @@
 SPECIFICATION TraceSpec
-CONSTANTS N = 86400 MaxSteps = 1000 InvertStartBySecTruncation = FALSE CaptureAtJoinEpoch = FALSE CacheIgnoresEpoch = FALSE LocalTimeEpoch = FALSE MaxJoinSteps = 1000
+CONSTANTS N = 86400 MaxSteps = 1000 InvertStartBySecTruncation = FALSE CaptureAtJoinEpoch = FALSE CacheIgnoresEpoch = FALSE LocalTimeEpoch = FALSE MemoIgnoresSite = FALSE MaxJoinSteps = 1000
 CONSTANT Lons <- LonsAll
 CONSTANT Theta0s <- ThetasAll
 CONSTANT StartSecs <- Secs60
 CONSTANT PriorAngles <- OnePrior
 CONSTANT Zones <- ZonesUtc
+CONSTANT PriorLonShifts <- NoPrior
 CONSTANT Plans <- NoPlan
 CONSTANT Dts <- DtsQuick
 INVARIANT TrStartInversionExact
